@@ -236,9 +236,11 @@ def run(chk):
     facts = F.load("dbg")
     env = Env(facts)
     nmax = 10 if chk.tier == "quick" else 12
-    dt = facts.adts.get("decomposition::DecompositionType")
+    # the public enum, wherever it is defined (a tree that compiles and passes the tests exports it)
+    dt_path = ([p_ for p_ in facts.adts if p_ == "decomposition::DecompositionType"] + [p_ for p_ in facts.adts if p_.endswith("::DecompositionType") or p_ == "DecompositionType"] + [None])[0]
+    dt = facts.adts.get(dt_path)
     if dt is None:
-        chk.refuted("C06.anchor", "anchor-missing: DecompositionType", "public enum not found")
+        chk.undecided("C06.anchor", "DecompositionType", "enum not found under that name: classification results cannot be read")
         return
     vnames = [v["name"] for v in dt["variants"]]
     chk.trust("rustc MIR construction; std summaries; the reading of the statement in spec_class()")
@@ -269,7 +271,7 @@ def run(chk):
                         if o.kind == "panic":
                             outs_cc.append((ccs, "panic(%s)" % o.info.get("msg")))
                         else:
-                            if not isinstance(o.value, Agg) or o.value.key != "decomposition::DecompositionType":
+                            if not isinstance(o.value, Agg) or o.value.key != dt_path:
                                 verdict, d = UNDECIDED, "result is not a DecompositionType: %r" % (o.value,)
                                 break
                             outs_cc.append((ccs, vnames[o.value.variant]))
